@@ -373,7 +373,7 @@ fn required_clauses(prop: &str) -> &'static [&'static str] {
         "C12" => &["c12.attach", "c12.detach", "c12.fanout", "c12.resubscription", "churn.attach", "churn.datum-fanout", "churn.upstream-subscriptions"],
         "C13" => &["c13.solo-replays", "stage same source value subscribed repeatedly (concat)", "stage same source value subscribed repeatedly (flatten)"],
         "C14" => &["c14.prefix", "c14.quiescent", "pipelines: demand at the output judged"],
-        "C15" => &["c15.step", "c15.next-call", "c15.exhausted", "c15.deep-iterator-items-on-256KiB-stack"],
+        "C15" => &["c15.step", "c15.next-call", "c15.exhausted", "c15.answered", "c15.deep-iterator-items-on-256KiB-stack"],
         "C16" => &["interval.ticks-delivered", "interval.cases-with-injected-spawn-failure", "interval.cases-with-disposal"],
         "C18" | "C19" => &["hook-yield-points"],
         _ => &[],
